@@ -70,6 +70,12 @@ Proof.
   apply andb_prop in H1 as [A B]. f_equal; [apply IH; exact A | apply IHx; exact B].
 Qed.
 
+Lemma kind_eqb_refl : forall a, kind_eqb a a = true.
+Proof.
+  fix IH 1. intros [|xs x]; [reflexivity|]. cbn [kind_eqb]. apply andb_true_intro. split; [|apply IH].
+  induction xs as [|x' xs IHx]; [reflexivity|]. apply andb_true_intro. split; [apply IH | exact IHx].
+Qed.
+
 Fixpoint kind_of_ty (t : ty) : kind :=
   match t with
   | TFn _ ps r _ _ => KF (map kind_of_ty ps) (kind_of_ty r)
@@ -367,6 +373,13 @@ with frag_stmts (fl : list (N * kind)) (k : nat) (sc : list N) (ss : list stmt) 
                       | Some K => if fresh_id fl sc x then frag_stmts ((x, K) :: fl) k sc ss' else None
                       | None => None
                       end
+                  | SAssignment Nop (ERead h _) v _ =>
+                      (* h = <a function value of the kind of h>: from here on the name h stands for that function,
+                         also in the closures that captured h *)
+                      match fun_kind fl h, frag_fexpr fl k sc v with
+                      | Some (KF a r), Some K => if kind_eqb K (KF a r) then frag_stmts fl k sc ss' else None
+                      | _, _ => None
+                      end
                   | _ => None
                   end
               end
@@ -433,7 +446,11 @@ Fixpoint frag_items (pv sv bound : N) (k : nat) (scg : list N) (fl : list (N * k
       end
   end.
 
-(* STAGE 4k (4j + EARLY RETURNS OF FUNCTION VALUES: in the body of a function that returns a function, after the local
+(* STAGE 4l (4k + ASSIGNMENT OF FUNCTION VALUES: in any statement list  h = <function value>  where h is a function name in
+   scope (a variable `h := f`, also a constant, a local function or a function parameter: the type checker decides which
+   of these may be assigned) and the value has the kind of h; from then on h stands for the new function, also inside
+   the closures that captured h (frag_stmts);
+   4k = 4j + EARLY RETURNS OF FUNCTION VALUES: in the body of a function that returns a function, after the local
    functions and definitions and before the last statement, GUARDS  `if c do ret <function value> end`  (c a plain
    condition without if-expression; the value a lambda, a function name or a call that returns a function, of the
    result kind): the first guard whose condition holds ends the call with its value (fbody_check, guard_parts);
@@ -495,8 +512,7 @@ Fixpoint frag_items (pv sv bound : N) (k : nat) (scg : list N) (fl : list (N * k
    of function kind), of lambda expressions and of calls of functions whose result kind is a function kind, in argument
    position, as the value of a constant or as the result of a function; a function name can be called and passed to a parameter of the same function kind, nothing
    else: so print, the operators, the conditions and the assignments only ever see plain values.
-   NOT in the fragment: `ret` without a value (it returns Sylt's nil, the table __NIL), ASSIGNMENTS of function
-   values (`c = mk(2)`), `ret` of a function value anywhere but as the last statement or in a guard (above), blobs, tuples, lists, enums/case, floats, division. *)
+   NOT in the fragment: `ret` without a value (it returns Sylt's nil, the table __NIL), `ret` of a function value anywhere but as the last statement or in a guard (above), blobs, tuples, lists, enums/case, floats, division. *)
 Definition frag (k : nat) (r : resolved) : bool :=
   let bound := N.of_nat (length (r_vars r)) + 1 in
   match r_stmts r with
